@@ -78,7 +78,7 @@ class SpecCtx:
         a = self.__dict__.get("args", {})
         if name in a:
             v = a[name]
-            if isinstance(v, (VRef, VInt, VBool, VStr, VCls, VCallback, VSeq, VAttrs)):
+            if isinstance(v, (VRef, VInt, VBool, VStr, VCls, VCallback, VSeq, VAttrs, VAdj)):
                 return v.term
             return v
         raise AttributeError(name)
